@@ -170,65 +170,171 @@ def rule_thread(ctx, rep):
             )
 
 
-def _is_benign_handler(h: ast.ExceptHandler) -> bool:
-    for st in h.body:
-        if isinstance(st, ast.Return) and (st.value is None or (isinstance(st.value, ast.Constant) and st.value.value is None)):
-            continue
-        if isinstance(st, ast.Pass):
-            continue
-        if isinstance(st, ast.Expr) and isinstance(st.value, ast.Call) and (dotted_name(st.value.func) or "").startswith(("logger.", "logging.")):
-            continue
-        return False
-    return True
+def _is_logging(st: ast.stmt) -> bool:
+    return isinstance(st, ast.Expr) and isinstance(st.value, ast.Call) and (dotted_name(st.value.func) or "").startswith(("logger.", "logging."))
 
 
-def write_only(ctx, fn: FuncInfo, stmts: list[ast.stmt], depth: int = 2) -> tuple[bool, str]:
-    r = ctx.resolver(fn)
-    hw = {id(c) for c, _, _ in handle_writes(fn.node, r)}
-    for st in stmts:
-        if isinstance(st, ast.Pass):
-            continue
-        if isinstance(st, ast.Expr) and isinstance(st.value, ast.Constant):
-            continue
-        if isinstance(st, ast.Expr) and isinstance(st.value, ast.Call):
-            c = st.value
+def _ret_none(st: ast.stmt) -> bool:
+    return isinstance(st, ast.Return) and (st.value is None or (isinstance(st.value, ast.Constant) and st.value.value is None))
+
+
+class Region:
+    """Statements that execute in only one of the two modes (found by comparing the two assumption-pruned flow analyses)."""
+
+    def __init__(self, ctx, fn: FuncInfo, stmts: list[ast.stmt]):
+        self.ctx, self.fn, self.stmts = ctx, fn, stmts
+        self.ids = {id(x) for st in stmts for x in ast.walk(st)}
+        assigned = set()
+        for st in stmts:
+            for x in ast.walk(st):
+                if isinstance(x, ast.Name) and isinstance(x.ctx, ast.Store):
+                    assigned.add(x.id)
+                elif isinstance(x, ast.ExceptHandler) and x.name:
+                    assigned.add(x.name)
+        leaked = {x.id for x in walk_no_nested(fn.node) if isinstance(x, ast.Name) and isinstance(x.ctx, ast.Load) and id(x) not in self.ids}
+        self.local = assigned - leaked  # defined and consumed entirely inside the region
+
+    def benign(self, stmts) -> bool:
+        """Giving up / bookkeeping that cannot reach the report."""
+        for st in stmts:
+            if isinstance(st, ast.Pass) or _ret_none(st) or _is_logging(st):
+                continue
+            if isinstance(st, ast.Assign) and all(isinstance(t, ast.Name) and t.id in self.local for t in st.targets) and isinstance(st.value, (ast.Constant, ast.Name)):
+                continue
+            return False
+        return True
+
+    def write_only(self, stmts=None, fn: FuncInfo | None = None, depth: int = 2) -> tuple[bool, str]:
+        ctx = self.ctx
+        fn = fn or self.fn
+        stmts = self.stmts if stmts is None else stmts
+        r = ctx.resolver(fn)
+        hw = {id(c) for c, _, _ in handle_writes(fn.node, r)}
+
+        def is_write_call(c: ast.Call) -> bool:
             if classify_sink(c, r) is not None or id(c) in hw:
-                continue
+                return True
             targets = r.resolve_call(c)
-            if depth and targets and all(isinstance(t, FuncInfo) and write_only(ctx, t, t.node.body, depth - 1)[0] for t in targets):
+            return bool(depth and targets and all(isinstance(t, FuncInfo) and Region(ctx, t, list(t.node.body)).write_only(fn=t, depth=depth - 1)[0] for t in targets))
+
+        for st in stmts:
+            if isinstance(st, ast.Pass) or _ret_none(st) or _is_logging(st):
                 continue
-            return False, f"`{unparse(st)[:70]}` is not a write"
-        if isinstance(st, (ast.With, ast.AsyncWith)):
-            for it in st.items:
-                ce = it.context_expr
-                if isinstance(ce, ast.Call) and (classify_sink(ce, r) is not None or last_attr(ce.func) == "measure"):
+            if isinstance(st, ast.Expr) and isinstance(st.value, ast.Constant):
+                continue
+            if isinstance(st, ast.Expr) and isinstance(st.value, ast.Call):
+                if is_write_call(st.value):
                     continue
-                return False, f"with-item `{unparse(ce)[:60]}` is neither a write handle nor a timer"
-            ok, why = write_only(ctx, fn, st.body, depth)
-            if not ok:
-                return ok, why
+                return False, f"`{unparse(st)[:70]}` is not a write"
+            if isinstance(st, ast.Assign) and all(isinstance(t, ast.Name) and t.id in self.local for t in st.targets):
+                v = st.value
+                if isinstance(v, (ast.Constant, ast.Name)) or (isinstance(v, ast.Call) and is_write_call(v)):
+                    continue
+                return False, f"`{unparse(st)[:70]}` computes something that is not a write status"
+            if isinstance(st, (ast.With, ast.AsyncWith)):
+                for it in st.items:
+                    ce = it.context_expr
+                    if isinstance(ce, ast.Call) and (classify_sink(ce, r) is not None or last_attr(ce.func) == "measure"):
+                        continue
+                    return False, f"with-item `{unparse(ce)[:60]}` is neither a write handle nor a timer"
+                ok, why = self.write_only(st.body, fn, depth)
+                if not ok:
+                    return ok, why
+                continue
+            if isinstance(st, ast.Try):
+                ok, why = self.write_only(st.body, fn, depth)
+                if not ok:
+                    return ok, why
+                if not all(self.benign(h.body) for h in st.handlers) or not self.benign(st.orelse):
+                    return False, "try/except around the write does more than give up"
+                if st.finalbody:
+                    ok, why = self.write_only(st.finalbody, fn, depth)
+                    if not ok:
+                        return ok, why
+                continue
+            if isinstance(st, ast.If):
+                reads = {x.id for x in ast.walk(st.test) if isinstance(x, ast.Name)}
+                pure = not any(isinstance(x, (ast.Call, ast.Attribute, ast.Subscript)) for x in ast.walk(st.test))
+                if pure and reads <= self.local:
+                    for branch in (st.body, st.orelse):
+                        if self.benign(branch):
+                            continue
+                        ok, why = self.write_only(branch, fn, depth)
+                        if not ok:
+                            return ok, why
+                    continue
+                return False, f"`if {unparse(st.test)[:50]}` inside the guarded block tests more than the write status"
+            return False, f"`{unparse(st)[:70]}` is not a write"
+        return True, ""
+
+
+def _topmost(ctx, fn, nodes: list[ast.stmt]) -> list[ast.stmt]:
+    ids = {id(n) for n in nodes}
+    pm = ctx.parents(fn)
+    out = []
+    for n in nodes:
+        cur = pm.get(id(n))
+        inside = False
+        while cur is not None and cur is not fn.node:
+            if id(cur) in ids:
+                inside = True
+                break
+            cur = pm.get(id(cur))
+        if not inside:
+            out.append(n)
+    return out
+
+
+def mode_regions(ctx, fn: FuncInfo):
+    """(statements executed only when DRY is false, only when DRY is true), top-most statements each."""
+    from ..flow import FlowAnalysis
+
+    r = ctx.resolver(fn)
+    texts = {unparse(n) for n in walk_no_nested(fn.node) if isinstance(n, (ast.Attribute, ast.Name)) and isinstance(getattr(n, "ctx", None), ast.Load) and is_dry_expr(n, r)}
+    fa_t = FlowAnalysis(fn.node, entry={(True, t) for t in texts})
+    fa_f = FlowAnalysis(fn.node, entry={(False, t) for t in texts})
+    stmts = [n for n in walk_no_nested(fn.node) if isinstance(n, ast.stmt) and n is not fn.node]
+    real_only = [s for s in stmts if fa_f.reachable(s) and not fa_t.reachable(s)]
+    dry_only = [s for s in stmts if fa_t.reachable(s) and not fa_f.reachable(s)]
+    real_returns = {unparse(s.value) if s.value is not None else "None" for s in stmts if isinstance(s, ast.Return) and fa_f.reachable(s)}
+    return _topmost(ctx, fn, real_only), _topmost(ctx, fn, dry_only), real_returns
+
+
+def modes_agree(ctx, fn: FuncInfo) -> tuple[bool, str]:
+    """The two modes differ only by a write-only region executed when DRY is false."""
+    real_only, dry_only, real_returns = mode_regions(ctx, fn)
+    if not real_only and not dry_only:
+        return True, ""
+    reg = Region(ctx, fn, real_only)
+    ok, why = reg.write_only()
+    if not ok:
+        return False, "the block executed only when the flag is false is not write-only: " + why
+    assigned_real = {x.id for st in real_only for x in ast.walk(st) if isinstance(x, ast.Name) and isinstance(x.ctx, ast.Store)}
+    for st in dry_only:
+        if isinstance(st, ast.Pass) or _is_logging(st):
             continue
-        if isinstance(st, ast.Try):
-            ok, why = write_only(ctx, fn, st.body, depth)
-            if not ok:
-                return ok, why
-            if st.orelse or st.finalbody or not all(_is_benign_handler(h) for h in st.handlers):
-                return False, "try/except around the write does more than give up"
-            continue
-        return False, f"`{unparse(st)[:70]}` is not a write"
+        if isinstance(st, ast.Return):
+            v = unparse(st.value) if st.value is not None else "None"
+            used = {x.id for x in ast.walk(st)if isinstance(x, ast.Name)}
+            if v in real_returns and not (used & assigned_real):
+                continue
+            return False, f"`{unparse(st)[:60]}` is returned only in dry-run mode (a real run returns something else)"
+        return False, f"`{unparse(st)[:60]}` executes only in dry-run mode (the modes diverge beyond the write)"
     return True, ""
 
 
 def rule_only_writes(ctx, rep):
     rep.rule(
         "R-DRYRUN-ONLY-WRITES",
-        "the dry-run flag is only stored, threaded to a dry_run parameter, or tested as `if not DRY:` around a "
-        "write-only block without else — so everything that feeds the report is computed identically in both modes",
+        "the dry-run flag is only stored, threaded to a dry_run parameter, or tested; in every function that tests it, the "
+        "statements executed in only one mode (difference of the two assumption-pruned flow analyses) are a write-only block "
+        "in real mode and nothing (or the same return) in dry-run mode — so everything that feeds the report is computed "
+        "identically in both modes",
         min_instances=12,
     )
-    dry_params = {f.qname for f in funcs_with_dry_param(ctx)}
+    agree_cache: dict[str, tuple[bool, str]] = {}
     for fn in ctx.prog.functions.values():
-        if fn.module.name == "codemodder.cli":
+        if fn.module.name == "codemodder.cli" or fn.absorbed:
             continue
         pm = None
         r = ctx.resolver(fn)
@@ -241,35 +347,37 @@ def rule_only_writes(ctx, rep):
             use = None
             ok = False
             why = ""
-            # climb through `not`
+            # climb through `not` and boolean connectives up to the statement that tests the value
             node = n
-            while isinstance(parent, ast.UnaryOp) and isinstance(parent.op, ast.Not):
+            while (isinstance(parent, ast.UnaryOp) and isinstance(parent.op, ast.Not)) or isinstance(parent, ast.BoolOp):
                 node, parent = parent, pm.get(id(parent))
-            if isinstance(parent, ast.Call) and (node in parent.args or any(k.value is node for k in parent.keywords)):
+            if isinstance(parent, ast.keyword):
+                node, parent = parent, pm.get(id(parent))
+            if isinstance(parent, ast.Call) and (node in parent.args or node in parent.keywords) and node is not n and not isinstance(node, ast.keyword):
+                use = "other"
+                why = f"used in `{unparse(parent)[:70]}`"
+            elif isinstance(parent, ast.Call) and (node in parent.args or node in parent.keywords):
                 targets = r.resolve_call(parent)
                 fts = [t for t in targets if isinstance(t, FuncInfo)]
                 if fts and all("dry_run" in t.params() for t in fts):
                     t0 = fts[0]
                     b = bind_args(parent, t0, t0.cls is not None)
-                    ok = b.get("dry_run") is node
+                    ok = b.get("dry_run") is n
                     use = "threaded"
                     why = "passed to a parameter other than dry_run"
                 else:
                     use = "argument"
                     why = f"passed to `{unparse(parent.func)}` which has no dry_run parameter"
-            elif isinstance(parent, (ast.Assign, ast.AnnAssign)) and parent.value is node:
+            elif isinstance(parent, (ast.Assign, ast.AnnAssign)) and parent.value is node and node is n:
                 tgts = parent.targets if isinstance(parent, ast.Assign) else [parent.target]
                 ok = all(isinstance(t, ast.Attribute) and t.attr == "dry_run" or isinstance(t, ast.Name) for t in tgts)
                 use = "stored"
                 why = "stored under another name"
             elif isinstance(parent, ast.If) and parent.test is node:
                 use = "guard"
-                facts = cond_facts(parent.test, True)
-                if len(facts) == 1 and next(iter(facts))[0] is False and not parent.orelse:
-                    ok, why = write_only(ctx, fn, parent.body)
-                    why = "guarded block is not write-only: " + why
-                else:
-                    why = "tested in a form other than `if not dry_run:` without else (the modes would diverge beyond the write)"
+                if fn.qname not in agree_cache:
+                    agree_cache[fn.qname] = modes_agree(ctx, fn)
+                ok, why = agree_cache[fn.qname]
             else:
                 use = "other"
                 why = f"used in `{unparse(parent)[:70] if parent is not None else '?'}`"
